@@ -66,6 +66,9 @@ func From[T fixed.Dx, FROM xmath.Numeric](value FROM) Int[T] {
 	case reflect.Float32, reflect.Float64:
 		f, _ := FromString[T](new(big.Float).SetPrec(128).SetFloat64(float64(value)).Text('f', MaxDecimalDigits[T]()+1)) //nolint:errcheck // Failure means 0
 		return f
+	case reflect.Uint, reflect.Uint8, reflect.Uint16, reflect.Uint32, reflect.Uint64, reflect.Uintptr:
+		var t T
+		return Int[T]{data: num.Int128FromUint64(uint64(value)).Mul(num.Int128From64(t.Multiplier()))}
 	default:
 		var t T
 		return Int[T]{data: num.Int128From64(int64(value)).Mul(num.Int128From64(t.Multiplier()))}
